@@ -261,6 +261,13 @@ func (u *VerifUniverse) CloneReachable(g *EscapeGraph, roots []int) *EscapeGraph
 	return g.CloneReachable(ns)
 }
 
+// SimplifySummary runs the real simplifySummary on a clone of g.
+func (u *VerifUniverse) SimplifySummary(g *EscapeGraph) *EscapeGraph {
+	gg := g.Clone()
+	simplifySummary(gg, nil)
+	return gg
+}
+
 type verifLoadOp struct{ op string }
 
 // VerifWellFormed runs the package's own wellFormedEscapeGraph.
